@@ -1,2 +1,69 @@
-(* Properties_C08.v -- placeholder, theorems follow *)
-From TP Require Import Term.
+(* Properties_C08.v — C08: what the terminal state reports as known is true of
+   the real terminal. *)
+From TP Require Import Base Elem Term VT Oracle P_Sync P_Step P_Bytes P_Run Tie_Output Tie_Charset.
+Local Open Scope N_scope.
+
+(* After every well-formed history, from every initial terminal at rest, under
+   every wrap mode: every value the state record reports as known equals the
+   state of the terminal that interpreted the bytes. *)
+Theorem C08_truthful :
+  forall cfg beh, (b_unicode_all beh = true -> unicode_all cfg = true) ->
+  forall v0 h, vt0_ok v0 -> wf_hist beh init_tstate h ->
+    let st := fst (hrun cfg beh init_tstate v0 h) in
+    let v := snd (hrun cfg beh init_tstate v0 h) in
+    ts_size st = vsize v /\
+    (forall p, ts_cur st = Some p ->
+       vcur v = p /\ pending v = false /\ inside p (vsize v) = true) /\
+    (forall p, ts_saved st = Some p -> vsaved v = Some p /\ inside p (vsize v) = true) /\
+    (forall l, ts_last st = Some l -> rend v = rend_of (ea l) /\ cs_ok beh (gcs (eg l)) v) /\
+    (ts_last st = None -> cs_ok beh CsAscii v) /\
+    (forall b, ts_vis st = Some b -> vis v = b).
+Proof.
+  intros cfg beh Huni v0 h H0 Hwf st v.
+  destruct (sync_hrun cfg beh Huni h init_tstate v0 (sync_init beh v0 H0) Hwf) as [S _].
+  fold st v in S. destruct S as [Slex Smal Sunk Ssize Scs Srend Scur Ssaved Svis].
+  split; [exact Ssize|]. split; [exact Scur|]. split; [exact Ssaved|]. split.
+  - intros l Hl. split; [exact (Srend l Hl)|]. unfold last_cs in Scs. rewrite Hl in Scs. exact Scs.
+  - split; [|exact Svis]. intros Hl. unfold last_cs in Scs. rewrite Hl in Scs. exact Scs.
+Qed.
+Print Assumptions C08_truthful.
+
+(* Whenever an operation makes the real state terminal-dependent the record
+   reports it as unknown: a write into the last column ... *)
+Theorem C08_forgets_last_column :
+  forall beh st e x y,
+    ts_cur st = Some (x, y) -> x + 1 = fst (ts_size st) ->
+    ts_cur (fst (step beh st (WElem e))) = None /\
+    ts_cur (fst (step beh st (WRaw e))) = None.
+Proof.
+  intros beh st e x y Hc Hx. cbn [step]. unfold optional_default_attribute.
+  assert (H : forall st', ts_cur st' = Some (x, y) -> ts_size st' = ts_size st ->
+                          ts_cur (fst (write_element beh st' e)) = None).
+  { intros st' Hc' Hs'. unfold write_element. cbn [fst]. rewrite advance_cur.
+    cbn [ts_cur ts_size set_last]. rewrite Hc', Hs', Hx, N.eqb_refl. reflexivity. }
+  split.
+  - destruct (ts_last st);
+      match goal with |- context[write_element beh ?s e] =>
+        specialize (H s); destruct (write_element beh s e) eqn:E end;
+      cbn [fst] in *; apply H; first [exact Hc | reflexivity].
+  - apply H; [exact Hc|reflexivity].
+Qed.
+Print Assumptions C08_forgets_last_column.
+
+(* ... a size change (current and saved position) ... *)
+Theorem C08_forgets_on_resize :
+  forall beh st sz,
+    let st' := fst (step beh st (SetSize sz)) in
+    ts_cur st' = None /\ ts_saved st' = None /\ ts_size st' = sz.
+Proof. intros. repeat split. Qed.
+Print Assumptions C08_forgets_on_resize.
+
+(* ... restoring a position that was never saved, or was saved while unknown. *)
+Theorem C08_forgets_unsaved_restore :
+  forall beh st, ts_saved st = None -> ts_cur (fst (step beh st Restore)) = None.
+Proof. intros beh st H. cbn. exact H. Qed.
+Print Assumptions C08_forgets_unsaved_restore.
+
+Theorem C08_save_copies_belief :
+  forall beh st, ts_saved (fst (step beh st Save)) = ts_cur st.
+Proof. reflexivity. Qed.
